@@ -55,6 +55,8 @@ inline void allocator_reset() {
 #include "nmtools/utl/vector.hpp"
 #include "nmtools/utl/static_vector.hpp"
 #include "nmtools/utl/array.hpp"
+#include "nmtools/utl/tuple.hpp"
+#include "nmtools/utl/tuplev2.hpp"
 #include "nmtools/utl/maybe.hpp"
 #include "nmtools/utl/either.hpp"
 #include "nmtools/utility/small_vector.hpp"
@@ -127,7 +129,7 @@ static const int NSLOTS = 2;
 template <typename K> static std::string run_history(const std::vector<op_t>& ops) {
     using C = typename K::C;
     using T = typename K::T;
-    c19::allocator_reset();
+    c19::allocator_reset(); trk::reset();
     alignas(16) static unsigned char store[NSLOTS][sizeof(C)];
     bool live[NSLOTS] = {false, false};
     auto obj = [&](int k) -> C& { return *std::launder(reinterpret_cast<C*>(store[k])); };
@@ -160,17 +162,18 @@ template <typename K> static std::string run_history(const std::vector<op_t>& op
         else if (o.name == "write")  { valid = live[s] && (size_t)arg(1) < K::size(obj(s)); if (valid) { if ((size_t)arg(1) < K::limit(obj(s)) || K::unguarded) K::set(obj(s), (size_t)arg(1), elem<T>::make(arg(2))); } }
         else if (o.name == "read")   { valid = live[s] && (size_t)arg(1) < K::size(obj(s));
                                        if (valid) { if ((size_t)arg(1) < K::limit(obj(s)) || K::unguarded) note = " r=" + cell<T>(K::get(const_cast<const C&>(obj(s)), (size_t)arg(1))); else note = " r=u"; } }
-        else if (o.name == "destroy"){ valid = live[s]; if (valid) { obj(s).~C(); live[s] = false; } }
+        else if (o.name == "destroy"){ valid = live[s]; if (valid) { obj(s).~C(); trk::sweep(store[s], sizeof(C)); live[s] = false; } }
         else throw bad_args("op");
         if (t) { S += "|"; I += "|"; }
         S += show(0) + "/" + show(1) + (valid ? note : std::string("!"));
         I += (live[0] ? K::intern(obj(0)) : std::string("-")) + "/" + (live[1] ? K::intern(obj(1)) : std::string("-"))
            + ";a=" + std::to_string(c19::g_allocs) + ",f=" + std::to_string(c19::g_frees);
     }
-    for (int k = 0; k < NSLOTS; k++) if (live[k]) { obj(k).~C(); live[k] = false; }
+    for (int k = 0; k < NSLOTS; k++) if (live[k]) { obj(k).~C(); trk::sweep(store[k], sizeof(C)); live[k] = false; }
     long leak = c19::g_allocs - c19::g_frees;
-    std::string fin = "leak=" + std::to_string(leak) + " live=0 bad=" + std::to_string(c19::g_badfree);
-    c19::allocator_reset();
+    std::string fin = "leak=" + std::to_string(leak) + " live=" + std::to_string((long)trk::live.size() + trk::leaked)
+                    + " bad=" + std::to_string(c19::g_badfree + trk::bad());
+    c19::allocator_reset(); trk::reset();
     return "ok " + S + " # " + I + " # " + fin;
 }
 
@@ -329,6 +332,33 @@ template <typename E> struct small_kind {
     }
 };
 
+// ---------------------------------------------------------------------------------------------
+// utl::tuple<E,E,E> / utl::tuplev2<E,E,E>  (element access through utl::get<I>)
+// ---------------------------------------------------------------------------------------------
+template <typename TP, typename E> struct tup_kind_base {
+    using T = E; using C = TP;
+    static const int storage_fill = 0; static const bool unguarded = false;
+    static void ctor(void* p) { new (p) C(); }
+    static void ctorN(void* p, size_t) { new (p) C(); }
+    static void ctorV(void* p, const std::vector<T>& v) { if (v.size() != 3) throw bad_args("ctorV arity"); new (p) C(v[0], v[1], v[2]); }
+    static void push(C&, const T&) {}
+    static void pushAt(C&, size_t) {}
+    static void resize(C&, size_t) {}
+    static size_t size(const C&) { return 3; }
+    static size_t limit(const C&) { return 3; }
+    static const T& get(const C& c, size_t i) { switch (i) { case 0: return utl::get<0>(c); case 1: return utl::get<1>(c); default: return utl::get<2>(c); } }
+    static void set(C& c, size_t i, const T& v) { switch (i) { case 0: utl::get<0>(c) = v; break; case 1: utl::get<1>(c) = v; break; default: utl::get<2>(c) = v; } }
+    static std::string intern(const C&) { return "3:"; }
+};
+template <typename E> struct tuple_kind : tup_kind_base<utl::tuple<E, E, E>, E> {};
+template <typename E> struct tuplev2_kind : tup_kind_base<utl::tuplev2<E, E, E>, E> {};
+template <template <typename> class K> static std::string by_elem_t(const std::string& e, const std::vector<op_t>& ops) {
+    if (e == "int") return run_history<K<int>>(ops);
+    if (e == "double") return run_history<K<double>>(ops);
+    if (e == "tracked") return run_history<K<tracked>>(ops);
+    throw bad_args("elem");
+}
+
 template <template <typename> class K> static std::string by_elem(const std::string& e, const std::vector<op_t>& ops) {
     if (e == "int") return run_history<K<int>>(ops);
     if (e == "double") return run_history<K<double>>(ops);
@@ -426,5 +456,7 @@ std::string handle(const std::string& op, const Args& a) {
     if (kind == "svec") return by_elem<svec_kind>(e, ops);
     if (kind == "arr") return by_elem<arr_kind>(e, ops);
     if (kind == "small") return by_elem<small_kind>(e, ops);
+    if (kind == "tuple") return by_elem_t<tuple_kind>(e, ops);
+    if (kind == "tuplev2") return by_elem_t<tuplev2_kind>(e, ops);
     return "unknown-op";
 }
